@@ -2,6 +2,7 @@
 from .. import oracles as O
 from .. import simrun, simgen, observers
 from . import _sim
+from .. import livecases
 
 PROPERTY = "C15"
 LEVEL = "exploration"
@@ -9,7 +10,7 @@ DISTINCT_RULE = (
     "cases = seeded runs with several strategies, clients, selections and handicaps in one market (placements, replacements, completions, closures); "
     "distinct = (strategies, clients, orders<=8, replaced?, handicaps?) shapes of blotters inspected + status sets filtered"
 )
-RULES = ["blotter", "blotter-order", "filter"]
+RULES = ["blotter", "blotter-order", "filter", "client-view-vs-account"]
 MINIMA = {"quick": {"rule_blotter": 20000, "rule_blotter-order": 100000, "rule_filter": 20000}, "thorough": {"rule_blotter": 600000}}
 ASSUMPTIONS = ["shadow list = orders for which Transaction.place_order returned True (includes replacements placed by the execution)"]
 WEIGHTS = [("hostile", 3), ("multi", 3), ("event", 2), ("fastlat", 2), ("recorded_event", 1)]
@@ -21,6 +22,7 @@ def plan(tier, seed):
     cases += [{"mode": "live_walk", "seed": seed, "idx": i, "cfg": {"n": 1 + i % 3, "async": i % 4 == 3, "hc": i % 7 == 3, "ext": i % 2 == 1, "sp": (i // 2) % 4 if i % 6 == 5 else 0}, "len": 9 + i % 6} for i in range(n)]
     cases += [{"mode": "paper_walk", "seed": seed, "idx": i, "len": 40 + i % 50} for i in range(300 if tier == "quick" else 6000)]
     # adoptions from the order stream for strategies registered at different times (before the first update, between updates)
+    cases += [{"mode": "accounts", "seed": seed, "idx": i} for i in range(150 if tier == "quick" else 3000)]
     return cases + [{"mode": "adoption", "seed": seed, "idx": i} for i in range(200 if tier == "quick" else 4000)]
 
 
@@ -140,6 +142,16 @@ def run_adoption(desc):
 def run(desc):
     if desc.get("mode") == "adoption":
         return run_adoption(desc)
+    if desc.get("mode") == "accounts":
+        # the by-client view against the outside: the bets each account actually holds at the exchange
+        res = livecases.accounts_run(desc["seed"], desc["idx"])
+        out = O.Out(PROPERTY)
+        for user, (mine, held) in res["views"].items():
+            out.rule("client-view-vs-account")
+            if mine != held:
+                out.v("client-view-differs-from-bets-held-by-the-account", {"clients": res["n_clients"]}, account=user, view=mine, held=held)
+        out.d("c15accounts:%d:%d" % (res["n_clients"], min(len(res["per_order"]), 10)))
+        return out.result()
     if desc.get("mode") == "paper_walk":
         from .. import paperwalk
 
